@@ -68,7 +68,7 @@ impl<'a> Lexer<'a> {
     #[verifier::external_body]
     pub fn substr_range(&self, a: usize, b: usize) -> (r: &'a str)
         requires slice_ok(self.buf, a as int, b as int),
-        ensures r == sp_substr(self.buf, a as int, b as int)
+        ensures r == sp_substr(self.buf, a as int, b as int), sp_len(r) == b - a, a < b ==> sp_first_char(r) == sp_char_at(self.buf, a as int)
     { unimplemented!() }
     /// `self.substr(a..)`
     #[verifier::external_body]
@@ -108,16 +108,6 @@ pub uninterp spec fn sp_no_newline(s: &str) -> bool;
 
 pub uninterp spec fn sp_word_chars(s: &str) -> bool;     // every char alphabetic or an apostrophe
 #[verifier::external_body] pub fn all_alphabetic_or_apostrophe(s: &str) -> (r: bool) ensures r == sp_word_chars(s) { unimplemented!() }
-impl<'a> Lexer<'a> {
-    /// tokenize_word (strip_suffix / trim_end_matches chains: not under contract): may stage a suffix token
-    #[verifier::external_body]
-    pub fn tokenize_word(&mut self, start: usize, word: &'a str, end: usize) -> (r: LexResult<'a>)
-        ensures final(self).buf == old(self).buf, final(self).line == old(self).line, final(self).line_start == old(self).line_start,
-            final(self).cursor@ == old(self).cursor@, r.end == end, r.newlines == 0, r.new_line_start is None,
-            r.token.range.start == (SourceLocation { line: old(self).line, column: (start - old(self).line_start) as u32 }),
-            r.token.range.end.line == old(self).line, !(r.token.id is Newline),
-    { unimplemented!() }
-}
 
 /// what scan_apostrophe_suffix needs (it is scan_for_text twice): a valid position at or after the line start in force
 pub open spec fn suffix_scan_ok(lx: Lexer<'_>, result: LexResult<'_>) -> bool {
@@ -227,7 +217,8 @@ impl<'a> Lexer<'a> {
 }
 #[verifier::external_body] pub fn is_ignorable_punctuation(c: char) -> (r: bool) { unimplemented!() }
 #[verifier::external_body] pub fn char_is_numeric(c: char) -> (r: bool) { unimplemented!() }
-#[verifier::external_body] pub fn char_is_alphabetic(c: char) -> (r: bool) { unimplemented!() }
+/// char::is_alphabetic (an apostrophe is not alphabetic)
+#[verifier::external_body] pub fn char_is_alphabetic(c: char) -> (r: bool) ensures r ==> c != '\'' { unimplemented!() }
 pub uninterp spec fn lit_s_spec() -> &'static str;
 pub uninterp spec fn lit_re_spec() -> &'static str;
 /// the literals "'s" and "'re": ASCII, no newline
